@@ -405,6 +405,10 @@ class _Run:
                     r = sym.boolc({"lt": x < y, "le": x <= y, "gt": x > y, "ge": x >= y, "eq": x == y, "ne": x != y}[o])
             except Exception:
                 r = None
+        if r is None and o in ("eq", "ne") and tag(a) == "agg" and tag(b) == "agg" and not kids(a) and not kids(b) \
+                and payload(a)[0] == payload(b)[0]:
+            # two field-less enum values of the same type
+            r = sym.boolc((payload(a)[1] == payload(b)[1]) == (o == "eq"))
         if r is None and tag(a) == "bool" and tag(b) == "bool" and o in ("eq", "ne"):
             r = sym.boolc((payload(a)[0] == payload(b)[0]) == (o == "eq"))
         if r is None:
@@ -481,9 +485,38 @@ class _Run:
                 self.finish(st, "abort")
                 return
 
+    def enum_eq(self, atom):
+        """(x, variant) when atom is eq(x, <field-less enum value>)"""
+        if tag(atom) == "op" and payload(atom)[0] == "eq" and len(kids(atom)) == 2:
+            a, b = kids(atom)
+            for x, y in ((a, b), (b, a)):
+                if tag(y) == "agg" and not kids(y) and tag(x) != "agg":
+                    return x, payload(y)[1]
+        return None
+
     def add_cond(self, st, cond, bb_from, line):
         atom, outcome = cond
         st.memo[atom] = outcome
+        ee = self.enum_eq(atom)
+        if ee is not None and outcome is True:
+            # x == Variant established: later tests of x against other variants are decided
+            st.memo[sym.op("discr", ee[0])] = ("variant", ee[1])
+        if ee is not None and outcome is False:
+            # x != Variant: with the enum's variant list the remaining possibilities are known
+            for y in kids(atom):
+                if tag(y) == "agg" and not kids(y):
+                    adt = self.world.adts.get(payload(y)[0])
+                    if adt:
+                        names = [v["name"] for v in adt["variants"]]
+                        key = sym.op("discr", ee[0])
+                        prev = st.memo.get(key)
+                        excluded = set(prev[1]) if prev and prev[0] == "other" else set()
+                        excluded.add(ee[1])
+                        rest = [n for n in names if n not in excluded]
+                        if len(rest) == 1:
+                            st.memo[key] = ("variant", rest[0])
+                        elif prev is None or prev[0] == "other":
+                            st.memo[key] = ("other", tuple(sorted(excluded)))
         c = (atom, outcome, st.blocks[-1], line)
         st.conds.append(c)
         st.items.append(("c", c))
@@ -555,6 +588,15 @@ class _Run:
             # switchInt(b) -> [0: false_bb, otherwise: true_bb]
             atom, pol = self.bool_atom(v)
             known = st.memo.get(atom)
+            if known is None:
+                ee = self.enum_eq(atom)
+                if ee is not None:
+                    kd = st.memo.get(sym.op("discr", ee[0]))
+                    if kd is not None:
+                        if kd[0] == "variant":
+                            known = (kd[1] == ee[1])
+                        elif kd[0] == "other" and ee[1] in kd[1]:
+                            known = False
             f_bb, t_bb = targets[0][1], otherwise
             if known is not None and known in (True, False):
                 val = known if pol else (not known)
@@ -664,6 +706,8 @@ class _Run:
         a0 = args[0] if args else None
         trait = callee.get("trait")
         nm = callee["name"]
+        if strip_generics(callee["pretty"]) == "std::clone::Clone::clone":
+            return a0
         self_ty = callee.get("self_ty") or callee.get("impl_self") or ""
         if trait in ("std::cmp::PartialOrd", "std::cmp::PartialEq") and nm in CMP:
             # comparisons are operator nodes whatever the operand type (Integer's own ordering is C19's subject)
